@@ -43,7 +43,7 @@ struct LNode : public ArenaListNode<LNode> {
 };
 static_assert(sizeof(HNode) == 24 && sizeof(TNode) == 24 && sizeof(LNode) == 24, "node sizes assumed by the model");
 
-struct VecAny { int item; ArenaVector<uint32_t> v4; ArenaVector<Item12> v12; };
+struct VecAny { int item; ArenaVector<uint32_t> v4; ArenaVector<Item12> v12; ArenaVector<uint8_t> v1; };
 
 static std::unique_ptr<Arena> g_arena;
 alignas(16) static uint8_t g_static[1 << 16];
@@ -74,7 +74,7 @@ static std::string loc_of(const void* p) {
 
 static void drop_containers() {
   // the arena memory is gone: forget every arena-backed container (no release)
-  for (auto& kv : g_vec) { kv.second.v4.reset(); kv.second.v12.reset(); }
+  for (auto& kv : g_vec) { kv.second.v4.reset(); kv.second.v12.reset(); kv.second.v1.reset(); }
   g_vec.clear();
   g_hash.clear(); g_tree.clear(); g_list.clear();
   for (auto& kv : g_bits) kv.second.reset();
@@ -149,6 +149,7 @@ static std::string arena_op(const std::vector<std::string>& w) {
 // ---- Vector -----------------------------------------------------------------------------------------------------
 template<typename T> static T mk(uint64_t x);
 template<> uint32_t mk<uint32_t>(uint64_t x) { return uint32_t(x); }
+template<> uint8_t mk<uint8_t>(uint64_t x) { return uint8_t(x); }
 template<> Item12 mk<Item12>(uint64_t x) { return Item12{uint32_t(x), uint32_t(x), uint32_t(x)}; }
 static uint32_t val(uint32_t x) { return x; }
 static uint32_t val(const Item12& x) { return x.a; }
@@ -252,7 +253,8 @@ static std::string list_state(ArenaList<LNode>& l) {
 static std::string bits_state(ArenaBitSet& b) {
   size_t nw = b.size_in_bit_words();
   std::string s = " n=" + U(b.size()) + " cap=" + U(b.capacity()) + " loc=" + loc_of(b.data()) + " bytes=" + U(b.capacity() / 8) + " ";
-  if (nw <= 24) {
+  if (nw > (size_t(1) << 20)) s += "whash=skipped";
+  else if (nw <= 24) {
     s += "w=";
     for (size_t i = 0; i < nw; i++) { if (i) s += ","; s += vh::to_hex(b.data()[i]); }
     if (!nw) s += "-";
@@ -305,7 +307,7 @@ static std::string step(const std::string& line) {
     }
     if (!g_arena) return "bad-op";
     if (c == "V") {
-      if (w.size() != 4 || !vh::parse_u64(w[3], a) || (a != 4 && a != 12) || g_vec.count(id)) return "bad-op";
+      if (w.size() != 4 || !vh::parse_u64(w[3], a) || (a != 4 && a != 12 && a != 1) || g_vec.count(id)) return "bad-op";
       g_vec[id].item = int(a);
       return "ok";
     }
@@ -332,6 +334,7 @@ static std::string step(const std::string& line) {
       o = &jt->second;
     }
     if (it->second.item == 4) return vec_op(it->second.v4, o ? &o->v4 : nullptr, w);
+    if (it->second.item == 1) return vec_op(it->second.v1, o ? &o->v1 : nullptr, w);
     return vec_op(it->second.v12, o ? &o->v12 : nullptr, w);
   }
   if (c == "H") {
@@ -487,6 +490,19 @@ static std::string step(const std::string& line) {
     else if (op == "append_int") e = s.append_int(int64_t(a), uint32_t(b), size_t(x), StringFormatFlags(uint32_t(y)));
     else if (op == "append_hex") { if (!hexarg(3)) return "bad-op"; e = s.append_hex(bytes.data(), bytes.size(), char(b)); }
     else if (op == "assign_hex") { if (!hexarg(3)) return "bad-op"; e = s.assign_hex(bytes.data(), bytes.size(), char(b)); }
+    else if (op == "append_format" || op == "assign_format") {
+      // only the non-format part is under test: the format is "%s", vsnprintf is trusted to produce the argument bytes
+      if (!hexarg(3)) return "bad-op";
+      std::string z((const char*)bytes.data(), bytes.size());
+      if (z.find('\0') != std::string::npos) return "bad-op";
+      e = op == "append_format" ? s.append_format("%s", z.c_str()) : s.assign_format("%s", z.c_str());
+    }
+    else if (op == "append_format_w") {
+      // "%*s": `a` = field width; used to provoke an output far larger than the capacity without a large input
+      if (!hexarg(4) || a > 0x7FFFFFFF) return "bad-op";
+      std::string z((const char*)bytes.data(), bytes.size());
+      e = s.append_format("%*s", int(a), z.c_str());
+    }
     else if (op == "pad_end") e = s.pad_end(size_t(a), char(b));
     else if (op == "truncate") e = s.truncate(size_t(a));
     else if (op == "clear") e = s.clear();
